@@ -273,6 +273,43 @@ def reference_value(ctx: Ctx, short: str, qualname: str, ref_src: str, args: dic
     return val
 
 
+def bind_calls(ctx: Ctx, v):
+    """calls of package functions with their arguments bound to parameter names (a keyword written positionally, or
+    the other way round, is the same call): ('call', name, (), sorted kwargs) when the name resolves to exactly one
+    module-level function of the package without *args"""
+    table = ctx.__dict__.get("_func_by_name")
+    if table is None:
+        table = {}
+        for f in ctx.sm.all_funcs():
+            if "." not in f.qualname:
+                table.setdefault(f.name, []).append(f)
+        ctx.__dict__["_func_by_name"] = table
+
+    def rec(t):
+        if not isinstance(t, tuple) or not t:
+            return t
+        if not isinstance(t[0], str):
+            return tuple(rec(x) if isinstance(x, tuple) else x for x in t)
+        t = (t[0],) + tuple(rec(x) if isinstance(x, tuple) else x for x in t[1:])
+        if t[0] == "call" and len(t) == 4:
+            cands = table.get(t[1].split(".")[-1], [])
+            if len(cands) == 1 and not cands[0].node.args.vararg and not any(a[0] == "spread" for a in t[2]):
+                params = [x.arg for x in cands[0].node.args.posonlyargs + cands[0].node.args.args]
+                if len(t[2]) <= len(params):
+                    kw = dict(t[3])
+                    okb = True
+                    for p_, a_ in zip(params, t[2]):
+                        if p_ in kw:
+                            okb = False
+                        kw[p_] = a_
+                    if okb:
+                        # names are decorated so that a parameter called `s`, `c`, `if` ... is not mistaken for a term tag
+                        return ("call", t[1], (), tuple(sorted(((k_ + "=", x_) for k_, x_ in kw.items()), key=lambda kv: kv[0])))
+        return t
+
+    return rec(v)
+
+
 def same_as_reference(ctx: Ctx, rule: str, short: str, qualname: str, ref_src: str, key: str, what_ok: str, what_fail: str, args: dict | None = None, project=None) -> str:
     """ok / fail / undecided record: the function's abstract value equals that of the vetted reference text
     (optionally after a projection `project(value)` that keeps the part the rule is about)."""
@@ -282,6 +319,8 @@ def same_as_reference(ctx: Ctx, rule: str, short: str, qualname: str, ref_src: s
     if project is not None:
         cur, ref = project(cur), project(ref)
     vd = verdict(cur, [ref])
+    if vd == "bad" and verdict(bind_calls(ctx, cur), [bind_calls(ctx, ref)]) == "ok":
+        vd = "ok"  # the same calls, arguments spelled positionally / by keyword
     if vd == "bad":
         # second chance: the difference may be a helper that one side calls and the other spells out - expand every
         # package function both sides call (also public ones; methods by unique name) and compare again.  Equal values
